@@ -24,6 +24,9 @@ type config struct {
 
 // runScriptBounded runs one script, the whole answer is TIMEOUT when it takes too long.
 func runScriptBounded(line string, cfg config) string {
+	if strings.HasPrefix(line, "stream ") {
+		return runStream(line)
+	}
 	abort := make(chan struct{})
 	res := make(chan string, 1)
 	go func() { res <- runScript(line, cfg, abort) }()
